@@ -226,7 +226,8 @@ class JSONRPC:
             return json.loads(message.decode())
         except UnicodeDecodeError:
             message = 'messages must be encoded in UTF-8'
-        except json.JSONDecodeError:
+        except (ValueError, RecursionError):
+            # JSONDecodeError; also the integer-digits ValueError and excessive nesting
             message = 'invalid JSON'
         raise cls._error(cls.PARSE_ERROR, message, True, None)
 
